@@ -61,6 +61,9 @@ def explore_mix(profiles, tier, seed, native=True, dbg=True, miri=True, asan=Fal
             jobs.append(ex("asan", prof, (q_hist if quick else t_hist) // 6, steps, max(1, per // 2), seed, weight=3))
         if memcheck and not quick:
             jobs.append(ex("memcheck", prof, 400, steps, max(1, per // 2), seed, weight=5, timeout=3000))
+    if native:
+        # long texts (far beyond the inline/boundary region the other runs dwell in)
+        jobs.append(ex("native-rel", profiles[0], 60 if quick else 3000, 80, 4, seed + 41, extra=["--max-len", "200000"], weight=2, label="native-rel(big texts)"))
     if miri and not quick:
         # second aliasing model + 32-bit and big-endian targets
         for prof in profiles[:2]:
@@ -98,12 +101,14 @@ def plan_for(prop, tier, seed):
     p = {"level": "exploration", "assumptions": list(ASSUME_COMMON), "decides": {n}, "sanitizer_decides": True,
          "rule": RULES.get(n, ""), "primary": n}
     MT = dict(weight=10, timeout=1500 if quick else 10000)
+    HUGE = [eng("native-rel", "huge", ["--shim", "shadow"], 1, seed + 51, weight=4, label="native-rel(huge texts)")]
     if n == 1:
-        p["jobs"] = explore_mix(["default", "sharing", "static", "fillcap"], tier, seed)
+        p["jobs"] = explore_mix(["default", "sharing", "static", "fillcap", "errorpath"], tier, seed) + HUGE
     elif n == 2:
-        p["jobs"] = explore_mix(["sharing", "static", "errorpath", "shrink"], tier, seed)
+        p["jobs"] = explore_mix(["sharing", "static", "errorpath", "shrink"], tier, seed) + HUGE
     elif n == 3:
-        p["jobs"] = explore_mix(["default", "sharing", "errorpath", "shrink"], tier, seed, asan=True, memcheck=True)
+        p["jobs"] = explore_mix(["default", "sharing", "errorpath", "shrink"], tier, seed, asan=True, memcheck=True) + HUGE + \
+            [eng("asan", "huge", ["--max", 1 << 20], 1, seed + 52, weight=3)]
     elif n == 4:
         p["rule"] = RULE_C04
         p["assumptions"] += ["Miri's scheduler and its store-buffer emulation SAMPLE schedules and visibility orders; 'every schedule' is not covered and not claimed",
@@ -153,7 +158,7 @@ def plan_for(prop, tier, seed):
             jobs = sharded("native-rel", "indices", ["--shim", "shadow", "--max-chars", 6], 16, seed, weight=3) + \
                    sharded("native-dbg", "indices", ["--shim", "shadow", "--max-chars", 5], 16, seed + 1, weight=3) + \
                    [eng("asan", "indices", ["--max-chars", 4], 1, seed + 7, weight=4)]
-        jobs += sharded("miri", "indices", ["--max-chars", 2, "--sample-pct", 12 if quick else 100], 16, seed + 2, **MT)
+        jobs += sharded("miri", "indices", ["--max-chars", 2], 16, seed + 2, mod=160 if quick else 16, **MT)
         jobs += [ex("native-rel", "errorpath", 500 if quick else 20000, 120, 4, seed + 4, weight=2),
                  ex("native-rel", "sharing", 500 if quick else 20000, 120, 4, seed + 5, weight=2)]
         p["jobs"] = jobs
